@@ -109,7 +109,7 @@ Section TCheck.
     | None => false
     | Some a =>
       match snd (snd lf) with
-      | XNil => final_ok st c a
+      | XNil => final_ok st c a && (negb (c =? 0) || eof_final_ok a)
       | _ => true
       end
     end.
@@ -132,3 +132,77 @@ Section TCheck.
       if forallb (leaf_triv_ok st c) (leaves_prev (step_tree st) c None) then [] else [(st, c)])
       all_byte_values) all_states.
 End TCheck.
+
+(* ---------------------------------------------------------------------------------------------- *)
+(* A third checker: the events one dispatch (a step function call with its re-dispatches) emits.
+   Next() hands out one lexeme per call and keeps the remaining events pending; a pending Begin that
+   is followed by further events when the end of the file has been passed is lost together with them.
+   The phase of an event sequence: 0 = no lexeme completed yet (these events are all processed in the
+   same call), 1 = a lexeme was completed, 2 = ... and then a Begin came, 3 = ... and then more.
+   The checker shows (a) a dispatch that does not pass the end of the file stays below phase 3, so
+   that between calls of Next() a pending Begin is always the LAST pending event; (b) a Begin
+   emitted while reading the end-of-file pseudo byte is placed AT the end of the file, so that what
+   is lost there covers no byte.  [ph c st] is an (untrusted, inferred) bound of the phase in which
+   state st can be re-dispatched to while byte c is being handled. *)
+Definition ph_step (phi : N) (e : evt) : N :=
+  if evt_in e evt_beginning then (if phi =? 0 then 0 else if phi =? 1 then 2 else 3)
+  else (if phi <=? 1 then 1 else 3).
+
+Section PCheck.
+  Variable ty : typing.
+  Variable ph : N -> state -> N.
+
+  (* (phase, whether the read position has been moved by this leaf) *)
+  Fixpoint ph_acts (c : N) (a : N * bool) (l : list act) : option (N * bool) :=
+    match l with
+    | [] => Some a
+    | AFound b e :: r =>
+      if (c =? 0) && evt_in e evt_beginning && (snd a || negb (b =? 0)) then None
+      else ph_acts c (ph_step (fst a) e, snd a) r
+    | ARewind _ :: r | AReadSchema :: r | AReadEnum :: r => ph_acts c (fst a, true) r
+    | _ :: r => ph_acts c a r
+    end.
+
+  Definition leaf_pend_ok (st : state) (c : N) (lf : list act * exit) : bool :=
+    match ph_acts c (ph c st, false) (fst lf) with
+    | None => false
+    | Some a =>
+      match snd lf with
+      | XErr _ => true
+      | XNil => ((c =? 0) && (rewind_total (fst lf) =? 0)%Z) || (fst a <=? 2)
+      | XRedo =>
+        match sfold ty st (st, SE_none) (fst lf) with
+        | Some sa => forallb (fun t => fst a <=? ph c t) (targets_of ty st sa)
+        | None => false
+        end
+      end
+    end.
+
+  Definition pend_ok : bool :=
+    forallb (fun st => forallb (fun c =>
+      forallb (leaf_pend_ok st c) (leaves_for (step_tree st) c)) all_byte_values) all_states.
+End PCheck.
+
+(* untrusted inference of [ph], byte by byte, by iteration from 0 *)
+Definition ph_row (row : list N) (st : state) : N := nth (N.to_nat (state_idx st)) row 0.
+Definition ph_of (tbl : list (list N)) (c : N) (st : state) : N := ph_row (nth (N.to_nat c) tbl []) st.
+
+Definition ph_edges (ty : typing) (c : N) (row : list N) : list (N * N) :=
+  flat_map (fun st => flat_map (fun lf =>
+    match snd lf with
+    | XRedo =>
+      match ph_acts c (ph_row row st, false) (fst lf), sfold ty st (st, SE_none) (fst lf) with
+      | Some a, Some sa => map (fun t => (state_idx t, fst a)) (targets_of ty st sa)
+      | _, _ => []
+      end
+    | _ => []
+    end) (leaves_for (step_tree st) c)) all_states.
+
+Definition ph_join (row : list N) (edges : list (N * N)) : list N :=
+  map (fun st => fold_left (fun m e => if (fst e =? state_idx st) then N.max m (snd e) else m) edges (ph_row row st)) all_states.
+
+Fixpoint ph_iter (ty : typing) (c : N) (n : nat) (row : list N) : list N :=
+  match n with O => row | S k => ph_iter ty c k (ph_join row (ph_edges ty c row)) end.
+
+Definition infer_ph (ty : typing) : list (list N) :=
+  map (fun c => ph_iter ty c 4 (map (fun _ => 0) all_states)) all_byte_values.
